@@ -13,6 +13,7 @@ import (
 	"cmp"
 	"slices"
 	"sync"
+	"sync/atomic"
 )
 
 // Runtime is implemented by the simulator.
@@ -127,3 +128,28 @@ func SortedKeys[M ~map[K]V, K cmp.Ordered, V any](m M) []K {
 	slices.Sort(keys)
 	return keys
 }
+
+// moved counts the bytes that instrumented code moved in bulk (copy, append(x, y...) of bytes):
+// a deterministic cost measure for oracles about work per input byte.
+var moved atomic.Int64
+
+// Copied wraps copy(dst, src): it receives copy's result.
+func Copied(n int) int {
+	moved.Add(int64(n))
+	return n
+}
+
+// MovedBytes wraps the y of append(x, y...).
+func MovedBytes[S ~[]byte](s S) S {
+	moved.Add(int64(len(s)))
+	return s
+}
+
+// MovedString wraps the y of append(x, y...) when y is a string.
+func MovedString[S ~string](s S) S {
+	moved.Add(int64(len(s)))
+	return s
+}
+
+// BytesMoved returns the process-wide number of bytes moved so far.
+func BytesMoved() int64 { return moved.Load() }
